@@ -1,0 +1,250 @@
+//! Verification hook H1 (compiled only with `--cfg egglog_verif`; with the cfg off this file
+//! contributes nothing and no behaviour changes).
+//!
+//! Serialises every compiled join [`Plan`] (the atoms it was compiled from, its headers, its
+//! stages, whether it is a single-bag or a decomposed plan and how many bags) as one JSON object,
+//! and hands it to a thread-local sink that a harness can start and drain around rule
+//! construction. Nothing is recorded while no sink is active.
+use std::cell::RefCell;
+use std::fmt::Write;
+
+use crate::{
+    free_join::plan::{JoinHeader, JoinStage, MatScanMode, Plan, ScanSpec},
+    numeric_id::NumericId,
+    query::Atom,
+    table_spec::Constraint,
+};
+
+thread_local! {
+    static SINK: RefCell<Option<Vec<String>>> = const { RefCell::new(None) };
+}
+
+/// Start recording the plans compiled on this thread (clears anything recorded before).
+pub fn verif_plan_sink_start() {
+    SINK.with(|s| *s.borrow_mut() = Some(Vec::new()));
+}
+
+/// Stop recording and return one JSON object per plan compiled since the sink was started.
+pub fn verif_plan_sink_take() -> Vec<String> {
+    SINK.with(|s| s.borrow_mut().take().unwrap_or_default())
+}
+
+pub(crate) fn record(plan: &Plan) {
+    SINK.with(|s| {
+        if let Some(v) = s.borrow_mut().as_mut() {
+            v.push(plan_json(plan));
+        }
+    });
+}
+
+fn constraint_json(out: &mut String, c: &Constraint) {
+    match c {
+        Constraint::Eq { l_col, r_col } => {
+            let _ = write!(out, "{{\"k\":\"Eq\",\"l\":{},\"r\":{}}}", l_col.index(), r_col.index());
+        }
+        Constraint::EqConst { col, val } => {
+            let _ = write!(out, "{{\"k\":\"EqConst\",\"col\":{},\"val\":{}}}", col.index(), val.rep());
+        }
+        Constraint::LtConst { col, val } => {
+            let _ = write!(out, "{{\"k\":\"LtConst\",\"col\":{},\"val\":{}}}", col.index(), val.rep());
+        }
+        Constraint::GtConst { col, val } => {
+            let _ = write!(out, "{{\"k\":\"GtConst\",\"col\":{},\"val\":{}}}", col.index(), val.rep());
+        }
+        Constraint::LeConst { col, val } => {
+            let _ = write!(out, "{{\"k\":\"LeConst\",\"col\":{},\"val\":{}}}", col.index(), val.rep());
+        }
+        Constraint::GeConst { col, val } => {
+            let _ = write!(out, "{{\"k\":\"GeConst\",\"col\":{},\"val\":{}}}", col.index(), val.rep());
+        }
+    }
+}
+
+fn constraints_json(out: &mut String, cs: &[Constraint]) {
+    out.push('[');
+    for (i, c) in cs.iter().enumerate() {
+        if i > 0 {
+            out.push(',');
+        }
+        constraint_json(out, c);
+    }
+    out.push(']');
+}
+
+fn nums_json(out: &mut String, xs: impl Iterator<Item = usize>) {
+    out.push('[');
+    for (i, x) in xs.enumerate() {
+        if i > 0 {
+            out.push(',');
+        }
+        let _ = write!(out, "{x}");
+    }
+    out.push(']');
+}
+
+fn scan_spec_json(out: &mut String, spec: &ScanSpec) {
+    let _ = write!(out, "{{\"atom\":{},\"cols\":", spec.to_index.atom.index());
+    nums_json(out, spec.to_index.vars.iter().map(|c| c.index()));
+    out.push_str(",\"cs\":");
+    constraints_json(out, &spec.constraints);
+    out.push('}');
+}
+
+fn bind_json(out: &mut String, bind: &[(crate::ColumnId, crate::Variable)]) {
+    out.push('[');
+    for (i, (c, v)) in bind.iter().enumerate() {
+        if i > 0 {
+            out.push(',');
+        }
+        let _ = write!(out, "[{},{}]", c.index(), v.index());
+    }
+    out.push(']');
+}
+
+fn to_intersect_json(out: &mut String, ti: &[(ScanSpec, smallvec::SmallVec<[crate::ColumnId; 2]>)]) {
+    out.push('[');
+    for (i, (spec, key)) in ti.iter().enumerate() {
+        if i > 0 {
+            out.push(',');
+        }
+        out.push_str("{\"scan\":");
+        scan_spec_json(out, spec);
+        out.push_str(",\"key\":");
+        nums_json(out, key.iter().map(|c| c.index()));
+        out.push('}');
+    }
+    out.push(']');
+}
+
+fn stage_json(out: &mut String, st: &JoinStage) {
+    match st {
+        JoinStage::Intersect { var, scans } => {
+            let _ = write!(out, "{{\"kind\":\"Intersect\",\"var\":{},\"scans\":[", var.index());
+            for (i, sc) in scans.iter().enumerate() {
+                if i > 0 {
+                    out.push(',');
+                }
+                let _ = write!(out, "{{\"atom\":{},\"col\":{},\"cs\":", sc.atom.index(), sc.column.index());
+                constraints_json(out, &sc.cs);
+                out.push('}');
+            }
+            out.push_str("]}");
+        }
+        JoinStage::FusedIntersect { cover, bind, to_intersect } => {
+            out.push_str("{\"kind\":\"FusedIntersect\",\"cover\":");
+            scan_spec_json(out, cover);
+            out.push_str(",\"bind\":");
+            bind_json(out, bind);
+            out.push_str(",\"to_intersect\":");
+            to_intersect_json(out, to_intersect);
+            out.push('}');
+        }
+        JoinStage::FusedIntersectMat { cover, mode, bind, to_intersect } => {
+            let _ = write!(out, "{{\"kind\":\"FusedIntersectMat\",\"mat\":{},\"mode\":", cover.index());
+            match mode {
+                MatScanMode::Full => out.push_str("{\"m\":\"Full\"}"),
+                MatScanMode::KeyOnly => out.push_str("{\"m\":\"KeyOnly\"}"),
+                MatScanMode::Value(vs) => {
+                    out.push_str("{\"m\":\"Value\",\"vars\":");
+                    nums_json(out, vs.iter().map(|v| v.index()));
+                    out.push('}');
+                }
+                MatScanMode::Lookup(vs) => {
+                    out.push_str("{\"m\":\"Lookup\",\"vars\":");
+                    nums_json(out, vs.iter().map(|v| v.index()));
+                    out.push('}');
+                }
+            }
+            out.push_str(",\"bind\":");
+            bind_json(out, bind);
+            out.push_str(",\"to_intersect\":");
+            to_intersect_json(out, to_intersect);
+            out.push('}');
+        }
+    }
+}
+
+fn stages_json(out: &mut String, stages: &[JoinStage]) {
+    out.push('[');
+    for (i, st) in stages.iter().enumerate() {
+        if i > 0 {
+            out.push(',');
+        }
+        stage_json(out, st);
+    }
+    out.push(']');
+}
+
+fn atoms_json(out: &mut String, atoms: &crate::numeric_id::DenseIdMap<crate::AtomId, Atom>) {
+    out.push('[');
+    for (i, (id, atom)) in atoms.iter().enumerate() {
+        if i > 0 {
+            out.push(',');
+        }
+        let _ = write!(out, "{{\"id\":{},\"table\":{},\"cols\":[", id.index(), atom.table.index());
+        for (j, (col, var)) in atom.var_columns.iter().enumerate() {
+            if j > 0 {
+                out.push(',');
+            }
+            let _ = write!(out, "[{},{}]", col.index(), var.index());
+        }
+        out.push_str("],\"fast\":");
+        constraints_json(out, &atom.constraints.fast);
+        out.push_str(",\"slow\":");
+        constraints_json(out, &atom.constraints.slow);
+        out.push('}');
+    }
+    out.push(']');
+}
+
+fn headers_json(out: &mut String, hs: &[JoinHeader]) {
+    out.push('[');
+    for (i, h) in hs.iter().enumerate() {
+        if i > 0 {
+            out.push(',');
+        }
+        let _ = write!(out, "{{\"atom\":{},\"cs\":", h.atom.index());
+        constraints_json(out, &h.constraints);
+        out.push('}');
+    }
+    out.push(']');
+}
+
+/// One JSON object describing `plan`.
+pub(crate) fn plan_json(plan: &Plan) -> String {
+    let mut out = String::new();
+    match plan {
+        Plan::SinglePlan(p) => {
+            out.push_str("{\"kind\":\"single\",\"bags\":1,\"atoms\":");
+            atoms_json(&mut out, &p.atoms);
+            out.push_str(",\"headers\":");
+            headers_json(&mut out, &p.header);
+            out.push_str(",\"stages\":");
+            stages_json(&mut out, &p.stages.instrs);
+            out.push('}');
+        }
+        Plan::DecomposedPlan(p) => {
+            let _ = write!(out, "{{\"kind\":\"decomposed\",\"bags\":{},\"atoms\":", p.stages.blocks.len());
+            atoms_json(&mut out, &p.atoms);
+            out.push_str(",\"headers\":");
+            headers_json(&mut out, &p.header);
+            out.push_str(",\"blocks\":[");
+            for (i, (stages, spec)) in p.stages.blocks.iter().enumerate() {
+                if i > 0 {
+                    out.push(',');
+                }
+                out.push_str("{\"stages\":");
+                stages_json(&mut out, &stages.instrs);
+                out.push_str(",\"msg_vars\":");
+                nums_json(&mut out, spec.msg_vars.iter().map(|v| v.index()));
+                out.push_str(",\"val_vars\":");
+                nums_json(&mut out, spec.val_vars.iter().map(|v| v.index()));
+                out.push('}');
+            }
+            out.push_str("],\"result\":");
+            stages_json(&mut out, &p.result_block.instrs);
+            out.push('}');
+        }
+    }
+    out
+}
